@@ -54,7 +54,6 @@ package attachment
 //@ func (*fileEvent).OnEvent
 //@   requires C10.progress: progress != nil
 //@   requires C10.live: progress.ProgressStage != ProgressStageSuccessQuit && progress.ProgressStage != ProgressStageFailQuit ==> progress.ExtensionFields.RecentTerminalMessage != nil && progress.ExtensionFields.RecentTerminalMessage.Header != nil && progress.ExtensionFields.RecentTerminalMessage.Header.Property != nil
-//@   requires C10.chunk: progress.ProgressStage == ProgressStageStreamData || progress.ProgressStage == ProgressStageSupplementary ==> progress.ExtensionFields.CurrentPackage != nil
 //@   requires C10.records: forallkey(k, progress.Record, progress.Record[k] != nil)
 //@   precall WriteFile C19.path: len(arg0) == 3 + len(phone) + len(name) && arg0[0] == '.' && arg0[1] == '/' && forall(i, 0, len(phone), arg0[2+i] == phone[i]) && arg0[2+len(phone)] == '/' && forall(i, 0, len(name), arg0[3+len(phone)+i] == name[i])
 //@   precall WriteFile C19.confined: nosep(name) && name != "" && name != "." && name != ".."
